@@ -1209,6 +1209,24 @@ theorem ringArea_pos_iff_ccw_simple (r : List Pt) (h : ringSimple r = true) :
   unfold ringArea
   constructor <;> intro h' <;> linarith
 
+/-- [T] `polygonArea_pos_iff_ccw`: **`signed_area` of a polygon is positive exactly when its exterior is
+counter-clockwise** (and negative exactly when it is clockwise), for a simple exterior ring not outweighed by the
+holes (true of every valid polygon: the holes lie inside the shell). -/
+theorem polygonArea_pos_iff_ccw (p : Poly) (he : simpleRing p.ext = true)
+    (hw : sumRat (p.ints.map (fun h => rabs (ringArea h))) < rabs (ringArea p.ext)) :
+    (0 < p.signedArea ↔ windingOrder p.ext = some .ccw) ∧
+    (p.signedArea < 0 ↔ windingOrder p.ext = some .cw) := by
+  obtain ⟨h1, h2, _, _⟩ := windingOrder_eq_sign_area p.ext he
+  obtain ⟨s1, s2⟩ := polygonArea_sign p hw
+  rw [s1, s2, h1, h2]
+  unfold ringArea
+  constructor <;> constructor <;> intro h' <;> linarith
+
+example : 0 < (Poly.mk [⟨0, 0⟩, ⟨4, 0⟩, ⟨4, 4⟩, ⟨2, 1⟩, ⟨0, 4⟩, ⟨0, 0⟩] []).signedArea := by
+  rw [(polygonArea_pos_iff_ccw _ (by decide +kernel) (by
+    norm_num [sumRat, ringArea, twiceSignedRingArea, shiftedDets, det, rabs])).1]
+  decide +kernel
+
 /-! ### Convex rings: reversal, `orient` without `PivotOnce`
 
 A convex ring may visit its least point several times in a row (repeated coordinates) — `PivotOnce`
